@@ -663,10 +663,30 @@ func (m *Machine) execStmt(s ir.Stmt, sc *Scope, fr *frame) flow {
 				return flow{}
 			}
 		}
+		if fe, ok := x.Exprs0().(ir.Func); ok && len(x.Exprs) > 1 {
+			// none of the declared names is in scope inside the function or the other initialisers
+			// (sc is the scope level execBlockS opened for this statement; the function closes over the one before it)
+			if sc.vars != nil || sc.parent == nil {
+				panic("model: a Local statement must start a fresh scope level")
+			}
+			cl := &Closure{Def: fe.F, Env: sc.parent, Fenv: fr.cl.Fenv}
+			fr.line = fe.F.EndLine
+			m.step()
+			vals := m.evalList(x.Exprs[1:], sc, fr, len(x.Names)-1)
+			sc.declare(x.Names[0], cl)
+			for i, n := range x.Names[1:] {
+				sc.declare(n, vals[i])
+			}
+			return flow{}
+		}
 		vals := m.evalList(x.Exprs, sc, fr, len(x.Names))
 		for i, n := range x.Names {
 			sc.declare(n, vals[i])
 		}
+	case *ir.FuncStmt:
+		fr.line = x.Line
+		m.step()
+		m.assignTo(ir.Var{Name: x.Name}, &Closure{Def: x.F, Env: sc, Fenv: fr.cl.Fenv}, sc, fr, nil)
 	case *ir.Assign:
 		fr.line = x.Line
 		m.step()
